@@ -54,6 +54,7 @@ theorem addCluster_ok (s : Store) (name : String) (nodeNum : Nat) (cfg : Config)
   unfold addCluster
   split; · exact OpOk.refl s
   split; · exact OpOk.refl s
+  split; · exact OpOk.refl s
   rename_i hnf
   split; · exact OpOk.refl s
   simp only
@@ -294,6 +295,9 @@ theorem replaceFailedProxy_ok (s : Store) (failedAddr choice : String) :
       | ok u =>
         cases u
         simp only
+        split
+        · -- ordered mode: takeover, a second bump, no replacement
+          exact h1.trans (OpOk.of_same rfl rfl (Nat.le_succ _))
         generalize (if s1.failed.contains failedAddr = true then s1.failed else s1.failed ++ [failedAddr]) = fl
         have h2 : OpOk s1 { s1 with failed := fl } := OpOk.of_same rfl rfl (Nat.le_refl _)
         have h12 := h1.trans h2
